@@ -36,6 +36,7 @@ def run(ctx):
     ctx.rule(torch_pipeline)
     ctx.rule(attrs)
     ctx.rule(reiterable_processors)
+    ctx.rule(single_pass_input)
     ctx.rule(exclusions)
     ctx.rule(cc.manifest_filter, "R-C09-manifest-exact", prog.func("command_line.signals_to_torch_feat_dir"))
     ctx.rule(config_syntax)
@@ -45,6 +46,7 @@ def run(ctx):
     ctx.rule(components_in_place)
     ctx.rule(manifest_lines)
     ctx.rule(torch_twins)
+    ctx.rule(torch_wrappers)
     ctx.rule(torch_port_geometry)
     ctx.rule(torch_port_spectrum)
     ctx.rule(torch_port_reductions)
@@ -75,6 +77,45 @@ def components_in_place(ctx, R="R-C09-pipeline"):
     property and is re-established here."""
     from . import c18
     c18.value(ctx, R)
+
+
+def single_pass_input(ctx, R="R-C09-exclusions"):
+    """The wave table of compute-feats-from-kaldi-tables is an rspecifier: it may be a pipe or standard input (``ark:-``), which
+    can be read once.  A tool that opens it a second time (to count the utterances, to look ahead) leaves nothing for the pass
+    that computes the features, and every utterance is missing from the output.  Typestate rule: the rspecifier is opened by
+    exactly one call site, and that site is not inside a loop."""
+    prog = ctx.prog
+    f = prog.func("command_line.compute_feats_from_kaldi_tables")
+    what = "the wave table is opened once (an rspecifier may be a pipe: it cannot be read twice)"
+
+    def is_rspec(e):
+        return any(isinstance(x, ast.Attribute) and x.attr == "wav_rspecifier" for x in ast.walk(e))
+    carriers = {"wav_rspecifier"}
+    for n in f.body_nodes():
+        if isinstance(n, ast.Assign) and (is_rspec(n.value) and isinstance(n.value, (ast.Attribute, ast.Name))):
+            carriers |= {t.id for t in n.targets if isinstance(t, ast.Name)}
+    opens = []
+    for c in astq.func_calls(f):
+        args = list(c.args) + [k.value for k in c.keywords]
+        if not args:
+            continue
+        a0 = args[0]
+        callee = (prog.qualify(f.module, c.func, f) or prog.dotted(c.func) or "").rsplit(".", 1)[-1].lower()
+        if not ("open" in callee or "reader" in callee or "read" in callee):
+            continue
+        if (isinstance(a0, ast.Attribute) and a0.attr == "wav_rspecifier") or (isinstance(a0, ast.Name) and a0.id in carriers - {"wav_rspecifier"}):
+            opens.append(c)
+    ctx.need(len(opens) >= 1, R, "no call that opens options.wav_rspecifier found")
+    pm = astq.parents(f)
+    if len(opens) > 1:
+        ctx.bad(R, f, opens[0] if opens[0].lineno > opens[-1].lineno else opens[-1],
+                "options.wav_rspecifier is opened by %d calls (%s): when the table is a pipe or standard input the first pass consumes it and the pass that "
+                "computes the features finds it empty - every utterance is missing from the output"
+                % (len(opens), "; ".join(astq.text(c)[:50] for c in opens)), what, robust=True)
+    elif any(isinstance(a, (ast.For, ast.While)) for a in astq.ancestors(pm, opens[0])):
+        ctx.bad(R, f, opens[0], "options.wav_rspecifier is opened inside a loop", what, robust=True)
+    else:
+        ctx.ok(R, f.loc(opens[0]), what, astq.text(opens[0])[:80])
 
 
 def reiterable_processors(ctx, R="R-C09-pipeline"):
@@ -739,21 +780,21 @@ def seed(ctx):
     seeds = [c for c in astq.func_calls(f) if prog.qualify(f.module, c.func, f) == "numpy.random.seed"]
     ctx.need(len(seeds) >= 1, R, "np.random.seed call not found in the kaldi tool")
     s = seeds[0]
-    ctx.check(len(s.args) == 1 and astq.text(s.args[0]) == "options.seed", R, f, s, "NumPy's generator is seeded with --seed",
-              "np.random.seed is called with %s, not options.seed" % astq.text(s.args[0] if s.args else MISSING(s)), structural=True)
     loop = cc.find_loop_over(f, lambda n: any(isinstance(x, ast.Name) and x.id == "wav_reader" for x in ast.walk(n.iter)))[0]
-    ns = containing_node(cfg, f, s)
     nl = cfg.node(loop)
     pm = astq.parents(f)
-    guard = [a for a in astq.ancestors(pm, s) if isinstance(a, ast.If)]
-    ok = len(guard) == 1 and astq.text(guard[0].test) in ("options.seed is not None",) and _in(guard[0].body, s)
-    ctx.check(ok, R, f, guard[0] if guard else MISSING(s), "seeding happens exactly when a seed is given",
-              "np.random.seed is not guarded by `options.seed is not None`")
-    if ok:
-        ng = cfg.node(guard[0])
-        dom = cfg.dominators()
-        ctx.check(ng in dom.get(nl, ()), R, f, s, "seeding precedes the per-utterance loop on every path",
-                  "the per-utterance loop can be reached without passing the seeding statement")
+    try:
+        decided = cc.seed_call_value(ctx, R, f, s)
+    except AnalysisError:
+        raise
+    except Exception as e:  # forward substitution gave up on the tool
+        decided = False
+    if not decided:
+        ctx.error(R, "cannot decide what np.random.seed is called with when --seed is given: %s" % astq.text(s)[:80])
+    outer = [a for a in astq.ancestors(pm, s) if isinstance(a, (ast.If, ast.For, ast.While, ast.Try, ast.With))]
+    top = outer[-1] if outer else astq.enclosing_stmt(pm, s)
+    ctx.check(not any(isinstance(a, (ast.For, ast.While)) for a in outer) and cfg.node(top) in cfg.dominators().get(nl, ()), R, f, s,
+              "seeding precedes the per-utterance loop on every path", "the per-utterance loop can be reached without passing the seeding statement")
     # no re-seeding and no other RNG source inside the loop
     for c in astq.calls_in(loop):
         q = prog.qualify(f.module, c.func, f) or ""
@@ -808,6 +849,14 @@ def _in(body, node):
 
 
 # -------------------------------------------------------- R-C09-torch-twins
+def torch_wrappers(ctx, R="R-C09-torch-twins"):
+    """signals-to-torch-feat-dir runs the short-integration computer and the post-processors through their torch wrappers.  What it
+    stores equals the library result only if a wrapper hands every input to the wrapped object and returns what that object
+    computed: the wrapper rule of the torch module (C14) is a premise of this property and is re-established here."""
+    from . import c14
+    c14.wrappers(ctx, R)
+
+
 def torch_twins(ctx):
     prog = ctx.prog
     R = "R-C09-torch-twins"
